@@ -6,6 +6,7 @@ CONSTANTS MaxSteps = 3
           Edits = FALSE
           Pairs = "no"
           Extend = FALSE
+          Mech = TRUE
 INIT Init
 NEXT Next
 INVARIANT PoolUntouched
